@@ -335,7 +335,7 @@ def netUpdate : Nat → Nat → NetM Nat
       let n ← getNode
       let (fb, ok) := n.frameBuf.unpack b
       modNode fun n => { n with frameBuf := fb }
-      if !ok || !isValid fb.header.toNode || !isValid fb.header.fromNode then netUpdate f retVal
+      if !ok || !isValid fb.header.toNode || !isValid fb.header.fromNode then netUpdate f 0
       else
         let msgT := fb.header.ty
         let (keep, rv) ← if fb.header.toNode = n.a.addr then handleThis f msgT else handleOther f msgT
@@ -439,7 +439,7 @@ def nodeUpdate : Nat → NetM Nat
     -- RF24Mesh.update()
     if msgT = MESH_ADDR_REQUEST ∧ n.frameBuf.header.reserved ≠ 0 then modNode fun n => { n with doDhcp := true }
     if n.nodeId = 0 then   -- `if not self.lookup_node_id()`
-      if msgT = MESH_ADDR_LOOKUP ∨ msgT = MESH_ID_LOOKUP then
+      if (msgT = MESH_ADDR_LOOKUP ∨ msgT = MESH_ID_LOOKUP) ∧ Mesh.lookupLongEnough msgT n.frameBuf.message then
         setHdr fun h => { h with toNode := h.fromNode }
         let n ← getNode
         let m : Mesh.Master := { table := n.dhcp, abandoned := n.a.addr = NETWORK_DEFAULT_ADDR }
